@@ -15,20 +15,21 @@ import (
 )
 
 type xcase struct {
-	Layout string         `json:"layout"`
-	Codec  string         `json:"codec"`
-	Dir    string         `json:"dir"`
-	Field  string         `json:"field"`
-	Mut    string         `json:"mut"`
-	Off    int            `json:"off"`
-	W      int            `json:"w"`
-	Val    int64          `json:"val"`
-	N      int            `json:"n"`
-	T      int            `json:"T"`
-	A      int64          `json:"A"`
-	Valid  bool           `json:"valid"`
-	Vis    bool           `json:"vis"`
-	True   map[string]int `json:"true"`
+	Layout   string         `json:"layout"`
+	Codec    string         `json:"codec"`
+	Dir      string         `json:"dir"`
+	Field    string         `json:"field"`
+	Mut      string         `json:"mut"`
+	Off      int            `json:"off"`
+	W        int            `json:"w"`
+	Val      int64          `json:"val"`
+	N        int            `json:"n"`
+	T        int            `json:"T"`
+	A        int64          `json:"A"`
+	Valid    bool           `json:"valid"`
+	Vis      bool           `json:"vis"`
+	True     map[string]int `json:"true"`
+	WrapBase int            `json:"wrapbase"`
 	// directed strings
 	Name  string `json:"name"`
 	At    string `json:"at"`
@@ -36,6 +37,30 @@ type xcase struct {
 }
 
 const tailLen = 96
+
+// bigVal is what the specification writes for a value above every bound of its model (Malformed!Big)
+const bigVal = 2000000000
+
+// classValue is the number a mutation class stands for.
+func classValue(c *xcase) int64 {
+	if c.Val < bigVal {
+		return c.Val
+	}
+	switch c.Mut {
+	case "max":
+		return -1 // all ones
+	case "sbm1":
+		return 1<<31 - 1
+	case "sb":
+		return 1 << 31
+	case "wrap0":
+		return 1<<32 - int64(c.WrapBase)
+	case "wrapm1":
+		return 1<<32 - int64(c.WrapBase) - 1
+	}
+	vh.Must(fmt.Errorf("mutation %s has no number", c.Mut), "class value")
+	return 0
+}
 
 var tails = []string{"tight", "zeros", "ones", "cont"}
 
@@ -197,16 +222,12 @@ func runXdec(casesPath, tracePath string, from, nrand int) {
 		if len(a) != c.T {
 			return fmt.Errorf("layout %s: the driver's frame has %d bytes, the specification says %d", c.Layout, len(a), c.T)
 		}
-		if c.Mut == "max" && allocSkip[c.Layout+"/"+c.Field] {
+		if c.Val >= bigVal && allocSkip[c.Layout+"/"+c.Field] {
 			tr.Emit(vh.Ev{"ev": "skip", "case": idx, "why": "decoder allocates from the announced length; 2^32-1 not tried"})
 			return nil
 		}
 		if c.Mut != "none" {
-			v := c.Val
-			if c.Mut == "max" {
-				v = -1 // all ones
-			}
-			putField(a, c.Off, c.W, v)
+			putField(a, c.Off, c.W, classValue(&c))
 		}
 		stream := append(append([]byte{}, a...), pristine(c.Layout, 1002)...)
 		if c.N > len(stream) {
